@@ -889,16 +889,22 @@ func unop(exI *interpreter, instr *ssa.UnOp, x value) value {
 		var v value
 		var ok bool
 		ch := x.(chan value)
-		select {
-		case v, ok = <-ch:
-		default:
-			exI.runQueued()
+		got := false
+		try := func() bool {
+			if got {
+				return true
+			}
 			select {
 			case v, ok = <-ch:
+				got = true
 			default:
-				exI.blocked("receive on a channel nobody sends to")
 			}
+			return got
 		}
+		if !try() {
+			exI.blockUntil(try, "receive on an empty channel")
+		}
+		exI.progress++
 		if !ok {
 			v = zero(instr.X.Type().Underlying().(*types.Chan).Elem())
 		}
